@@ -1,5 +1,5 @@
 use crate::{
-    error::{ComputeError, ExecError, MemoryError, OpError, OpResult},
+    error::{ComputeError, ExecError, OpError, OpResult, OutOfGasError},
     Access, Gas, GasLimit, LazyCache, Memory, Op, OpAccess, OpGasCost, Repeat, Stack, StateReads,
     Vm,
 };
@@ -129,7 +129,7 @@ where
     let oks = results.map_err(|e| OpError::Compute(ComputeError::Exec(Box::new(e))))?;
 
     // Process compute program results.
-    let (pc, total_gas, halt) = compute_effects(memory, pc, halt, oks)?;
+    let (pc, total_gas, halt) = compute_effects(memory, pc, halt, oks, gas_limit.total)?;
 
     parent_memory.pop();
 
@@ -140,13 +140,26 @@ where
 // Updates parent VM program counter to the largest pc returned from the compute programs.
 //
 // Returns maximum program counter and total gas spent in compute programs.
-fn compute_effects(
+//
+// Errors if the total gas spent in compute programs overflows or exceeds the gas limit.
+fn compute_effects<E>(
     memory: &mut Memory,
     mut pc: usize,
     mut halt: bool,
     compute_results: Vec<(Gas, usize, Memory, bool)>,
-) -> Result<(usize, Gas, bool), MemoryError> {
-    let mut total_gas = 0;
+    gas_limit: Gas,
+) -> OpResult<(usize, Gas, bool), E> {
+    let mut total_gas: Gas = 0;
+    for (gas, _, _, _) in &compute_results {
+        total_gas = total_gas
+            .checked_add(*gas)
+            .filter(|&total| total <= gas_limit)
+            .ok_or(OutOfGasError {
+                spent: total_gas,
+                op_gas: *gas,
+                limit: gas_limit,
+            })?;
+    }
 
     let mut memory_to_alloc = 0;
     compute_results
@@ -157,9 +170,8 @@ fn compute_effects(
     // allocate enough space in the parent memory at once
     memory.alloc(memory_to_alloc)?;
     // concat compute memories to parent memory one by one
-    compute_results.iter().for_each(|(gas, c_pc, mem, h)| {
+    compute_results.iter().for_each(|(_, c_pc, mem, h)| {
         pc = std::cmp::max(pc, *c_pc);
-        total_gas += gas;
         memory.store_range(memory_pointer, mem).expect("for now");
         memory_pointer += mem.len().unwrap();
         halt |= h;
